@@ -66,10 +66,18 @@ func modA(k int32) []byte {
 	m.AddFunc(nil, []wasmb.ValType{wasmb.FuncRef}, nil, (&wasmb.Code{}).RefFunc(inc).B, "getref")
 	ti := m.AddType(i32, i32)
 	m.AddFunc([]wasmb.ValType{wasmb.I32, wasmb.I32}, i32, nil, (&wasmb.Code{}).LocalGet(1).LocalGet(0).CallIndirect(ti, 0).B, "callslot")
+	// seg(x): memory.init from a PASSIVE data segment, table.init from a PASSIVE element segment, then
+	// use both: the exporter's segment instances must stay intact while importers can still call this
+	m.AddFunc(i32, i32, nil, (&wasmb.Code{}).
+		I32Const(64).I32Const(0).I32Const(4).MemoryInit(0).
+		I32Const(3).I32Const(0).I32Const(1).TableInit(1, 0).
+		LocalGet(0).I32Const(3).CallIndirect(ti, 0).I32Const(64).I32Load(0).I32Add().B, "seg")
 	m.Tables = []wasmb.Table{{Elem: wasmb.FuncRef, Lim: wasmb.Limits{Min: 4}}}
-	m.Elems = []wasmb.Elem{{Mode: 0, Offset: wasmb.ConstI32(0), Funcs: []uint32{inc}}}
+	m.Elems = []wasmb.Elem{{Mode: 0, Offset: wasmb.ConstI32(0), Funcs: []uint32{inc}}, {Mode: 1, Funcs: []uint32{inc}}}
 	m.Exports = append(m.Exports, wasmb.Export{Name: "tab", Kind: wasmb.KindTable, Idx: 0})
 	m.Mem = &wasmb.Limits{Min: 1}
+	m.Datas = []wasmb.Data{{Passive: true, Bytes: []byte{byte(k), 0, 0, 0}}}
+	m.DataCount = true
 	return m.Encode()
 }
 
@@ -77,9 +85,11 @@ func modB() []byte {
 	m := &wasmb.Module{}
 	i32 := []wasmb.ValType{wasmb.I32}
 	inc := m.ImportFunc("a", "inc", i32, i32)
+	seg := m.ImportFunc("a", "seg", i32, i32)
 	m.Imports = append(m.Imports, wasmb.Import{Module: "a", Name: "tab", Kind: wasmb.KindTable, Table: wasmb.Table{Elem: wasmb.FuncRef, Lim: wasmb.Limits{Min: 4}}})
 	t := m.AddType(i32, i32)
 	m.AddFunc(i32, i32, nil, (&wasmb.Code{}).LocalGet(0).Call(inc).Call(inc).B, "twice")
+	m.AddFunc(i32, i32, nil, (&wasmb.Code{}).LocalGet(0).Call(seg).B, "viaseg")
 	m.AddFunc(i32, i32, nil, (&wasmb.Code{}).LocalGet(0).I32Const(0).CallIndirect(t, 0).B, "viatab")
 	return m.Encode()
 }
@@ -418,7 +428,7 @@ func (r *runner) step(shared bool) {
 		case 'E':
 			r.compareCall(fmt.Sprintf("call #%d E.mul(%d)", i, x), i, "mul", x)
 		case 'B':
-			fn := tape.Pick(t, []string{"twice", "viatab"})
+			fn := tape.Pick(t, []string{"twice", "viatab", "viaseg"})
 			r.compareCall(fmt.Sprintf("call #%d B.%s(%d) [imports from #%d]", i, fn, x, in.definer), i, fn, x)
 		case 'C':
 			slot := t.Choose(3)
